@@ -5,7 +5,7 @@
 cd /verif
 BASE=$(python3 -c "import json;print(' '.join(sorted(t.split('::')[0] for t in json.load(open('/root/.vp/BASELINE.json'))['stable_pass'])))")
 for d in ${@:-seeded_inbox/*/m*}; do
-  pid=$(basename $(dirname $d)); m=$(basename $d); id=${pid}_$m
+  pid=$(basename $(dirname $d)); m=$(basename $d); id=${pid}_$m${SUFFIX:-}
   wt=/tmp/cm_$id; log=/tmp/cm_$id.log
   rm -rf $wt; git -C /repo worktree add -f $wt HEAD >/dev/null 2>&1 || { echo "$id worktree-failed"; continue; }
   ( cd $wt
